@@ -146,7 +146,6 @@ func cmdVerify(args []string) {
 	}
 }
 
-func cmdReplay(args []string)   { fmt.Println("not implemented yet"); os.Exit(2) }
 
 // cmdSweep: zero-annotation safety sweep — verify functions WITHOUT contracts
 // against the empty contract (no panics for arbitrary well-typed inputs) and
